@@ -850,6 +850,7 @@ type sessClient struct{ s *sess }
 func (c *sessClient) RunEvent(time.Time) {
 	s, k, sc := c.s, c.s.k, c.s.sc
 	defer func() {
+		k.Announce()
 		k.Lock()
 		s.cliFin = true
 		k.Unlock()
@@ -1277,6 +1278,7 @@ type udpClient struct {
 func (c *udpClient) RunEvent(time.Time) {
 	s, k, sc := c.s, c.s.k, c.s.sc
 	defer func() {
+		k.Announce()
 		k.Lock()
 		s.udpFin++
 		if s.udpFin == sc.Clients {
